@@ -85,6 +85,8 @@ def case(draw):
     # registered on one solver would be visible if they leaked into another
     for b in bl:
         b['fscale'] = draw(st.sampled_from([50, 25, 10, -30, 40]))
+        # the optional steady-state initialisation is a property of the solve request as well
+        b['steady'] = draw(st.sampled_from([False, False, True]))
         first = b['eqs'][0]
         first[1] = first[1] + ' + 0.10*f_half(' + first[0] + ')'
     nm = draw(st.sampled_from([1, 1, 2, 0]))
@@ -166,7 +168,9 @@ def run(spec):
                         es.AddFunction(fn, f)
                     diag_before_compare = True
                 es.TraceStep = trace
-                item = {'type': 'block', 'spec': bspec, 'reduction': bool(reduction)}
+                item = {'type': 'block', 'spec': bspec, 'reduction': bool(reduction), 'steady': bool(bspec.get('steady'))}
+                es.ParameterSolveInitialSteadyState = bool(bspec.get('steady'))
+                es.ParameterInitialSteadyStateMaxTime = 60
                 try:
                     es.ParseString(text)
                     es.SolveEquation()
